@@ -20,6 +20,9 @@ SPEC = {
     'SLL': ({'packet_type': (0, 16), 'lladdr_type': (16, 16), 'lladdr_len': (32, 16), 'protocol': (112, 16)}, []),
     'UDP_': ({}, []),
 }
+# message types whose header re-uses the bytes of id/sequence for a derived RFC 4884 length (the field under test does not
+# exist in such a message); they are not drawn as PRIOR state.  (False alarm seen with VERIF_SEED=1, corrected here.)
+UNION_DISCRIMINATOR = {('ICMP', 'type', 3), ('ICMP', 'type', 11), ('ICMP', 'type', 12), ('ICMPv6', 'type', 1), ('ICMPv6', 'type', 3)}
 KINDS = {1: 'int', 2: 'enum', 3: 'small', 4: 'v4', 5: 'v6', 6: 'hw'}
 
 
@@ -130,6 +133,8 @@ def run(ctx):
             others = [o for o in by_class[cls] if o[1] != fld and o[2] in (1, 2, 3, 4, 6)]
             for o in rng.sample(others, min(len(others), 5)):
                 ov = rng.randrange(1 << min(o[3], 62)) if o[2] in (1, 3) else (rng.randrange(4) if o[2] == 2 else rng.randrange(1 << 62))
+                if (cls, o[1], ov) in UNION_DISCRIMINATOR:
+                    continue
                 lines.append('set 0 %s %d' % (o[1], ov))
             comp = (~v) & ((1 << min(bits, 64)) - 1) if kind in (1, 3) else ((v + 1) % 4 if kind == 2 else v ^ 0x5a5a5a5a5a5a5a5a)
             lines += ['ser', 'view', 'set 0 %s %d' % (fld, comp), 'set 0 %s %d' % (fld, v), 'ser']
